@@ -113,8 +113,16 @@ PreAt(s, e) ==
     CASE e.e = "gsc" /\ e.by = "deme" ->
            LET a == Advance(s, e.b, e.d, {})
                s1 == a.st
-               s2 == IF s1.cur = NoDeme /\ EnBegin(s1, e.d) /\ e.d \in Ids(s1) /\ Eng(s1, e.d) # "LOCAL"
-                     THEN DoBegin(s1, e.d) ELSE s1
+               s2a == IF s1.cur = NoDeme /\ EnBegin(s1, e.d) /\ e.d \in Ids(s1) /\ Eng(s1, e.d) # "LOCAL"
+                      THEN DoBegin(s1, e.d) ELSE s1
+               \* the deme consults the global condition again although the model has already closed its metaepoch
+               \* after the configured number of generations: the number of generations per metaepoch is mechanism,
+               \* not property - reopen the metaepoch and count the consult as a further iteration (informational)
+               s2 == IF e.d \in Ids(s2a) /\ s2a.pc = "meta" /\ s2a.cur = e.d /\ s2a.await = "lsc"
+                        /\ Eng(s2a, e.d) \in PopEngines /\ s2a.D[e.d].me > 0 /\ Len(s2a.D[e.d].gens) > 1
+                     THEN [s2a EXCEPT !.await = "-", !.D[e.d].me = @ - 1,
+                                      !.D[e.d].gens = SubSeq(@, 1, Len(@) - 1)]
+                     ELSE s2a
            IN IF e.d \in Ids(s2) /\ EnIter(s2, e.d)
               THEN R(DoIter(s2, e.d, BatchCalls(e.b, e.d)), a.errs)
               ELSE IF e.d \in Ids(s2) /\ s2.pc = "meta" /\ s2.cur = e.d /\ s2.await = "-"
